@@ -13,7 +13,13 @@ echo -n "demo without patch: "; go test -vet=off -count=1 -run 'Demo|Seed' ./$PK
 rm "$PKG/zz_seed_demo_test.go"
 git apply "$D/patch.diff" || { echo "patch does not apply"; cd /; git -C /repo worktree remove --force "$WT"; exit 2; }
 echo -n "build with patch: "; go build ./... >/tmp/sc-$$.log 2>&1 && echo OK || { echo FAIL; tail -5 /tmp/sc-$$.log; }
-echo -n "existing suite with patch ($SUITE): "; go test -vet=off -count=1 $SUITE >/tmp/sc-$$.log 2>&1 && echo PASS || { echo FAIL; grep -v '^ok\|no test files' /tmp/sc-$$.log | tail -8; }
+echo -n "existing suite with patch ($SUITE): "
+if go test -vet=off -count=1 $SUITE >/tmp/sc-$$.log 2>&1; then echo PASS
+else
+  # TestSender (protocols/bgp/server) is timing dependent and flaky on a loaded machine: retry failing packages once
+  FAILED=$(grep '^FAIL\s' /tmp/sc-$$.log | awk '{print $2}' | sed 's#github.com/bio-routing/bio-rd#.#' | sort -u | tr '\n' ' ')
+  if [ -n "$FAILED" ] && go test -vet=off -count=1 $FAILED >/tmp/sc-$$.log 2>&1; then echo "PASS (after retry of $FAILED)"; else echo FAIL; grep -v '^ok\|no test files' /tmp/sc-$$.log | tail -8; fi
+fi
 cp "$D/$DEMO" "$PKG/zz_seed_demo_test.go"
 echo -n "demo with patch: "; go test -vet=off -count=1 -run 'Demo|Seed' ./$PKG/ >/tmp/sc-$$.log 2>&1 && echo "PASS (BAD: change not demonstrated)" || echo "FAIL (as expected)"
 cd /; git -C /repo worktree remove --force "$WT"; rm -f /tmp/sc-$$.log
